@@ -21,7 +21,7 @@ RULE = ('every cart of <= N code lines over 30 line kinds (2 plain lines; includ
 ASSUMPTIONS = ['expected code = byte concatenation of the spliced lines (an included file without final newline joins the '
                'next line, as a textual splice does)',
                'for .p8.png targets one extra trailing newline of the included code is tolerated (reader normalisation, C04)',
-               'tab n of a cart = the lines between the n-th and (n+1)-th "-->8" separator lines, 0-based as in picotool '
+               'tab n of a cart = the lines between the n-th and (n+1)-th separator lines (a line reading exactly "-->8" up to its line end, LF or CR LF), 0-based as in picotool '
                'and the PICO-8 editor']
 BOUNDS = {'quick': {'all_kinds_lines': 2, 'nonpng_lines': 3}, 'thorough': {'all_kinds_lines': 3, 'nonpng_lines': 4}}
 
@@ -38,6 +38,9 @@ CART_CODE = {
     'inc3e': [TAB, TAB, b'x3=1\n', TAB],       # empty tabs 0,1 and 3
     # 13 tabs (0..12): selectors with two digits
     'inc12': [ln for n in range(13) for ln in ([TAB] if n else []) + [b'm%d=%d\n' % (n, n)]],
+    # code lines ending in CR LF (what `build --lua` makes of a .lua file saved with Windows line ends): the separator
+    # line is then '-->8' CR LF
+    'inc2crlf': [b'w0a=1\r\n', b'w0b=2\r\n', b'-->8\r\n', b'w1a=3\r\n', b'-->8\r\n', b'w2a=4\r\n', b'w2b=5\r\n'],
 }
 MANY_TAB_SELECTORS = [0, 1, 2, 9, 10, 11, 12, 13, 19, 20, 21, 99, 100, 101, 112]
 P8_HEAD = b'pico-8 cartridge // http://www.pico-8.com\nversion 33\n'
@@ -59,7 +62,7 @@ def png_bytes(code_lines):
 def tabs_of(code_lines):
     tabs = [[]]
     for ln in code_lines:
-        if ln.startswith(b'-->8'):
+        if ln.rstrip(b'\r\n') == b'-->8':
             tabs.append([])
         else:
             tabs[-1].append(ln)
@@ -279,6 +282,12 @@ def manytab_sequences(tier):
             yield (plain, k, plain)
             yield (k, (fmt, 'inc12', MANY_TAB_SELECTORS[(MANY_TAB_SELECTORS.index(n) + 4) % len(MANY_TAB_SELECTORS)]))
         yield ((fmt, 'inc12', None),)
+    # separator lines with a CR LF line end (.p8 only: the .p8.png reader turns CR into a blank, C04)
+    for n in (None, 0, 1, 2, 3, 4):
+        k = ('p8', 'inc2crlf', n)
+        yield (k,)
+        yield (plain, k, plain)
+        yield (k, ('p8', 'inc2', 1))
 
 
 def shards(tier, seed):
